@@ -1099,8 +1099,16 @@ func (p *partition) handleReplicationResponse(msg *nats.Msg) int {
 	}
 	p.mu.RUnlock()
 
-	// Update HW from leader's HW.
-	p.log.SetHighWatermark(hw)
+	// Update HW from leader's HW once the data has been appended. A replica
+	// that is catching up holds less than the leader has committed, and its
+	// HW must not point beyond its log: committed readers locate the HW in
+	// the log.
+	defer func() {
+		if newest := p.log.NewestOffset(); hw > newest {
+			hw = newest
+		}
+		p.log.SetHighWatermark(hw)
+	}()
 
 	if len(data) == 0 {
 		return 0
